@@ -1,5 +1,6 @@
 CONSTANTS
   Server = {1, 2, 3}
+  Campaigners = {1, 2}
   MaxTerm = 4
   MaxProposals = 0
   MaxCrashes = 0
@@ -7,7 +8,7 @@ CONSTANTS
   MaxDups = 0
   MaxHeartbeats = 0
   MaxLog = 3
-  MaxNet = 8
+  MaxNet = 9
   MaxEnts = 1
   SimDepth = 0
   W_CommitAnyTerm = TRUE
